@@ -2132,6 +2132,16 @@ def _conv_set(ctx, v=()):
   return SetV(tuple(ctx.engine.concrete_items(ctx, v)))
 
 
+def _b_hasattr(ctx, o, name):
+  if not isinstance(name, str):
+    raise Unsupported('hasattr with a symbolic name')
+  if isinstance(o, Ref) and isinstance(o.cell(ctx), ObjCell):
+    c = o.cell(ctx)
+    return name in c.fields or (c.cls is not None and (c.cls.lookup(name) is not None or
+                                                       any(n == name for n, _ in (c.cls.dc_fields or []))))
+  raise Unsupported(f'hasattr({type(o).__name__}, {name!r})')
+
+
 def _b_iter(ctx, v):
   if isinstance(v, Ref):
     c = v.cell(ctx)
@@ -2238,6 +2248,7 @@ BUILTINS = {
     'set': TypeTag('set', lambda ctx, v: isinstance(v, SetV), _conv_set),
     'str': TypeTag('str', lambda ctx, v: isinstance(v, (str, StrV)), _b_str),
     'bytes': TypeTag('bytes', lambda ctx, v: isinstance(v, bytes)),
+    'hasattr': Handler(lambda ctx, o, name: _b_hasattr(ctx, o, name), 'hasattr'),
     'iter': Handler(_b_iter, 'iter'),
     'next': Handler(_b_next, 'next'),
     'abs': Handler(_b_abs, 'abs'),
